@@ -38,6 +38,13 @@ struct KnownFinding {
     /// ... and at most this long
     #[serde(default)]
     printed_max_len: Option<usize>,
+    /// ... and be exactly MAX_LENGTH + 1 bytes long and equal to the source text with one hyphen
+    /// inserted (the item was parsed from a MAX_LENGTH-byte text with a hyphen-less prerelease)
+    #[serde(default)]
+    printed_is_source_plus_hyphen_at_max_length: bool,
+    /// generate the reproducer instead of using `repro`: "hyphenless-at-max-length"
+    #[serde(default)]
+    repro_kind: Option<String>,
     /// ... and its source must be of this kind ("parsed-range", "setop-range", "version")
     what: String,
     /// a concrete failing input: the finding is announced only while this still fails
@@ -52,6 +59,16 @@ struct KnownFile {
 }
 
 impl KnownFinding {
+    fn reproducer(&self) -> ValueSpec {
+        match self.repro_kind.as_deref() {
+            Some("hyphenless-at-max-length") => ValueSpec::version(plan::VSrc::Text(format!(
+                "1.2.3{}",
+                "c".repeat(nodejs_semver::MAX_LENGTH - 5)
+            ))),
+            _ => self.repro.clone(),
+        }
+    }
+
     fn matches(&self, prop: &str, v: &Violation) -> bool {
         if self.property != prop || !self.classes.iter().any(|c| *c == v.class) {
             return false;
@@ -72,6 +89,23 @@ impl KnownFinding {
         }
         if let Some(n) = self.printed_max_len {
             if printed.len() > n {
+                return false;
+            }
+        }
+        if self.printed_is_source_plus_hyphen_at_max_length {
+            let source = match &v.source {
+                Some(s) => s,
+                None => return false,
+            };
+            if source.len() != nodejs_semver::MAX_LENGTH || printed.len() != source.len() + 1 {
+                return false;
+            }
+            // removing one hyphen from the printed form must give back the source text
+            let ok = printed
+                .char_indices()
+                .filter(|(_, c)| *c == '-')
+                .any(|(i, _)| format!("{}{}", &printed[..i], &printed[i + 1..]) == *source);
+            if !ok {
                 return false;
             }
         }
@@ -127,6 +161,7 @@ struct Args {
     profile_tag: String,
     no_known_lines: bool,
     repo_state: String,
+    reenter_note: String,
 }
 
 fn parse_args() -> Result<Args, String> {
@@ -155,6 +190,7 @@ fn parse_args() -> Result<Args, String> {
         profile_tag: if cfg!(debug_assertions) { "sim".into() } else { "simrel".into() },
         no_known_lines: false,
         repo_state: "unknown".into(),
+        reenter_note: String::new(),
     };
     let mut it = std::env::args().skip(1);
     a.cmd = it.next().ok_or("usage: semver-dst <check|replay> ...")?;
@@ -184,6 +220,10 @@ fn parse_args() -> Result<Args, String> {
             "--no-known-lines" => a.no_known_lines = true,
             "--repo-state" => a.repo_state = val("--repo-state")?,
             "--strict-reentrancy" => run::STRICT_REENTRANCY.store(true, std::sync::atomic::Ordering::Relaxed),
+            "--no-reenter" => {
+                stubs::NO_REENTER.store(true, std::sync::atomic::Ordering::Relaxed);
+                a.reenter_note = "re-entrant operations switched off for this run: one of them did not return (the code under test holds a lock across the sink or reader call)".into();
+            }
             other => return Err(format!("unknown argument {:?}", other)),
         }
     }
@@ -337,7 +377,45 @@ fn cmd_replay(args: &Args) -> i32 {
     }
 }
 
+/// A re-entrant operation that never returns (the code under test holds a lock across the sink
+/// call and the nested operation wants the same lock) would hang the whole check.  Re-entrancy is
+/// advisory, so it must never cost the verdict: when nothing has moved for a while and a
+/// re-entrant operation is in flight, the process replaces itself with the same command line plus
+/// `--no-reenter`.
+fn start_reentrancy_watchdog() {
+    use std::sync::atomic::Ordering::SeqCst;
+    if stubs::NO_REENTER.load(SeqCst) {
+        return;
+    }
+    std::thread::spawn(|| {
+        let mut last = stubs::PROGRESS.load(SeqCst);
+        let mut still = 0u32;
+        loop {
+            std::thread::sleep(std::time::Duration::from_millis(500));
+            let now = stubs::PROGRESS.load(SeqCst);
+            if now != last || stubs::NESTED_IN_FLIGHT.load(SeqCst) <= 0 {
+                last = now;
+                still = 0;
+                continue;
+            }
+            still += 1;
+            if still >= 20 {
+                println!("REENTRANCY-NOTE: a re-entrant operation has not returned for 10 s while nothing else made progress (a lock held across the sink call?); restarting without re-entrant operations");
+                use std::os::unix::process::CommandExt;
+                let mut args: Vec<String> = std::env::args().collect();
+                let exe = std::env::current_exe().unwrap_or_else(|_| std::path::PathBuf::from(&args[0]));
+                args.remove(0);
+                args.push("--no-reenter".into());
+                let err = std::process::Command::new(exe).args(args).exec();
+                eprintln!("HARNESS-ERROR: could not restart without re-entrant operations: {}", err);
+                std::process::exit(2);
+            }
+        }
+    });
+}
+
 fn cmd_check(args: &Args) -> i32 {
+    start_reentrancy_watchdog();
     let prop = match args.prop {
         Some(p) => p,
         None => {
@@ -366,7 +444,7 @@ fn cmd_check(args: &Args) -> i32 {
     let mut announced: Vec<String> = Vec::new();
     for kf in known.findings.iter().filter(|k| k.property == prop.id() && k.status == "known") {
         let mut scratch = Stats::default();
-        let out = run::execute(&Plan::fault_free(kf.repro.clone()), None, &mut scratch);
+        let out = run::execute(&Plan::fault_free(kf.reproducer()), None, &mut scratch);
         if out.violations.iter().any(|v| kf.matches(prop.id(), v)) {
             if !args.no_known_lines {
                 println!("KNOWN-FINDING: property={} id={} {}", prop.id(), kf.id, kf.what);
@@ -574,6 +652,9 @@ fn cmd_check(args: &Args) -> i32 {
         let d: String = detail.chars().take(300).collect();
         println!("REENTRANCY-NOTE: property={} {} - {}", prop.id(), class, d);
     }
+    if !args.reenter_note.is_empty() {
+        println!("REENTRANCY-NOTE: {}", args.reenter_note);
+    }
     if advisory_n > 0 {
         println!(
             "REENTRANCY-NOTE: {} observation(s) in runs where a sink or reader re-entered the crate; advisory only (C12/C13 quantify over values, not calling contexts) - see DESIGN.md 7.2",
@@ -593,7 +674,7 @@ fn cmd_check(args: &Args) -> i32 {
             C::probe_short_then_hard, C::probe_record_at_max_length, C::probe_flip_separator_to_identifier,
             C::probe_crash_inside_short_write, C::probe_bufwriter_flush_failure_after_clean_display,
             C::probe_max_safe_integer_component, C::probe_fault_between_list_items,
-            C::dl_reader, C::dl_bufreader, C::dl_str, C::dl_value, C::dl_destr, C::dl_destring, C::dl_deborrowed,
+            C::dl_reader, C::dl_bufreader, C::dl_str, C::dl_value, C::dl_in_place,
             C::dl_escaped_str, C::dl_escaped_reader, C::flip_runs_rejected, C::flip_runs_other_value,
         ] {
             if stats.get(c) == 0 {
@@ -700,6 +781,7 @@ fn cmd_check(args: &Args) -> i32 {
                 "observations": advisory_n,
                 "samples": stats.advisory_samples.iter().map(|(c, d)| serde_json::json!({"class": c, "detail": d})).collect::<Vec<_>>(),
                 "note": "runs in which a stub re-entered the crate are advisory: nothing they observe changes the verdict",
+                "switched_off": args.reenter_note,
             },
             "simulated_time_s": 0,
             "simulated_time_note": "the code under test has no clock, timer or deadline; there is no simulated time to cover",
